@@ -1287,6 +1287,46 @@ def shrink_candidates(hist):
         if any(o is None for o in rest):
             continue
         yield dict(hist, ops=rest)
+    c = compact_universe(hist)
+    if c is not None:
+        yield c
+
+
+def _map_data(op, f):
+    """apply f to every data-universe index an op mentions (a copy of the op)"""
+    op = _copy.deepcopy(op)
+    k = op[0]
+
+    def items(l):
+        return [[f(d), did, items(ch)] for d, did, ch in l]
+
+    if k == "new" and isinstance(op[2], dict):
+        op[2]["raise"] = [f(i) for i in op[2].get("raise", [])]
+    elif k == "add":
+        op[3] = f(op[3])
+    elif k == "short":
+        op[4] = f(op[4])
+    elif k in ("set_data", "rename") and op[3] is not None:
+        op[3] = f(op[3])
+    elif k == "del" and "d" in op[2]:
+        op[2]["d"] = f(op[2]["d"])
+    elif k == "from_dict":
+        op[3] = items(op[3])
+    elif k == "tree_from_dict":
+        op[1] = items(op[1])
+    return op
+
+
+def compact_universe(hist):
+    """The same history over only the data objects it uses (None if nothing can be dropped)."""
+    used = []
+    for op in hist["ops"]:
+        _map_data(op, lambda i: used.append(i) or i)
+    keep = sorted(set(used))
+    if len(keep) == len(hist["univ"]):
+        return None
+    pos = {old: new for new, old in enumerate(keep)}
+    return {"univ": [hist["univ"][i] for i in keep], "ops": [_map_data(op, lambda i: pos[i]) for op in hist["ops"]]}
 
 
 def renumber(op, dropped):
